@@ -1,0 +1,54 @@
+//go:build verif
+
+// Contracts for the gowp verifier (/verif): comment-only file, compiled only with -tags verif.
+// Readers: decode at *p in the byte order *e and advance the cursor (MIT keytab file format).
+package keytab
+
+//@ func keytab.isNativeEndianLittle() (r)
+//@   trusted reads the byte order of the machine through unsafe.Pointer (outside the subset); true on amd64
+//@   pure
+
+//@ func keytab.readInt8(b, p, e) (i, err)
+//@   requires *p <= len(b)
+//@   modifies *p
+//@   ensures err == nil <==> old(*p) >= 0 && old(*p) + 1 <= len(b)
+//@   ensures err == nil ==> *p == old(*p) + 1 && i == int8(b[old(*p)])
+//@   ensures err != nil ==> *p == old(*p)
+//@ func keytab.readInt16(b, p, e) (i, err)
+//@   requires *p <= len(b)
+//@   modifies *p
+//@   ensures err == nil <==> old(*p) >= 0 && old(*p) + 2 <= len(b)
+//@   ensures err == nil ==> *p == old(*p) + 2
+//@   ensures err == nil && tagof(*e) == typeid("encoding/binary.bigEndian") ==> i == int16(uint16(b[old(*p)]) << 8 | uint16(b[old(*p)+1]))
+//@   ensures err == nil && tagof(*e) != typeid("encoding/binary.bigEndian") ==> i == int16(uint16(b[old(*p)+1]) << 8 | uint16(b[old(*p)]))
+//@   ensures err != nil ==> *p == old(*p)
+//@ func keytab.readInt32(b, p, e) (i, err)
+//@   requires *p <= len(b)
+//@   modifies *p
+//@   ensures err == nil <==> old(*p) >= 0 && old(*p) + 4 <= len(b)
+//@   ensures err == nil ==> *p == old(*p) + 4
+//@   ensures err == nil && tagof(*e) == typeid("encoding/binary.bigEndian") ==> i == int32(uint32(b[old(*p)]) << 24 | uint32(b[old(*p)+1]) << 16 | uint32(b[old(*p)+2]) << 8 | uint32(b[old(*p)+3]))
+//@   ensures err == nil && tagof(*e) != typeid("encoding/binary.bigEndian") ==> i == int32(uint32(b[old(*p)+3]) << 24 | uint32(b[old(*p)+2]) << 16 | uint32(b[old(*p)+1]) << 8 | uint32(b[old(*p)]))
+//@   ensures err != nil ==> *p == old(*p)
+//@ func keytab.readBytes(b, p, s, e) (r, err)
+//@   requires 0 <= *p && *p <= len(b) && s <= 4294967296
+//@   modifies *p
+//@   ensures err == nil <==> s >= 0 && old(*p) + s <= len(b)
+//@   ensures err == nil ==> *p == old(*p) + s && len(r) == s && fresh(r)
+//@   ensures err == nil ==> forall k int :: 0 <= k && k < s ==> r[k] == b[old(*p) + k]
+//@   ensures err != nil ==> *p == old(*p)
+//@ func keytab.readTimestamp(b, p, e) (t, err)
+//@   requires *p <= len(b)
+//@   modifies *p
+//@   ensures err == nil <==> old(*p) >= 0 && old(*p) + 4 <= len(b)
+//@   ensures err == nil ==> *p == old(*p) + 4
+//@   ensures err != nil ==> *p == old(*p)
+//@ func keytab.parsePrincipal(b, p, kt, ke, e) (err)
+//@   requires 0 <= *p && *p <= len(b)
+//@   modifies *p, ke.Principal, elems(ke.Principal.Components[len(ke.Principal.Components):cap(ke.Principal.Components)])
+//@   trusted_frame in-place appends to Components inside the loop need a slice-identity invariant; the frame is not used by a property
+//@   ensures 0 <= *p && *p <= len(b)
+//@   loop 1 invariant 0 <= *p && *p <= len(b)
+//@ func (*keytab.Keytab).Unmarshal(kt, b) (err)
+//@   loop 1 invariant 0 <= n && n <= len(b)
+//@   loop 1 decreases len(b) - n
